@@ -237,7 +237,8 @@ def run_in(ctx, tmpdir):
             fp = io.StringIO()
             kw = {}
             if not cfg.endswith("str"):
-                kw["mapper"] = m.ser
+                # every other serialisation mapper returns a NEW dict (what the mapper returns is what gets written)
+                kw["mapper"] = m.ser if next(tgt_rot) % 2 else (lambda n, d: dict(m.ser(n, dict(d)) or d))
             case = dict(side="write", cfg=cfg, spec=spec, key_map=km_name, value_map=vm_name)
             doc = None
             # target kind rotates: open stream, str path, pathlib.Path, compressed path (the layout is the same for all)
@@ -298,9 +299,18 @@ def run_in(ctx, tmpdir):
             if typed:
                 vm["kind"] = ["a", "b", "child", "c", "d"]
         doc = encode(desc, typed, km, vm, {"who": "independent"})
+        if km is None and objs:
+            # a document WITHOUT a key map whose object entries have application fields called like the short keys of the
+            # default maps (i, s, k): nothing may be renamed or re-interpreted on load
+            for j_, row in enumerate(doc["nodes"]):
+                if isinstance(row[1], dict) and "o" in row[1]:
+                    row[1].update({"i": 7000 + j_, "s": "app-field", "k": j_})
         cls = TypedTree if typed else Tree
         case = dict(side="read", typed=typed, doc=doc)
-        fm = {}
+        from props.c05 import SHARED_FILE_META
+
+        # every other load hands over ONE caller-owned `file_meta` dict that still holds the header of the previous document
+        fm = SHARED_FILE_META if k % 2 else {}
         try:
             from props.c05 import consuming
 
@@ -315,7 +325,7 @@ def run_in(ctx, tmpdir):
         out.dist["read:" + ("typed" if typed else "plain") + ("-obj" if objs else "-str")] += 1
         if res != want:
             out.fail(case, f"document written to the documented layout loads as {res}, it describes {want}; doc {json.dumps(doc)[:300]}", impl=res, spec=want)
-        elif fm != doc["meta"]:
+        elif (fm != doc["meta"]) if not (k % 2) else any(fm.get(k_) != v_ for k_, v_ in doc["meta"].items()):
             out.fail(case, f"file_meta {fm} != header {doc['meta']}")
         ml = ctx.driver.ask({"op": "ser.load", "doc": doc, "typed": typed, "deser": ("o" if objs else ("str" if typed else "none"))})
         mres = S.model_shape(ml["ok"]) if "ok" in ml else "err:" + ml.get("err", "?")
